@@ -431,4 +431,19 @@ theorem noSelfMatch_needed :
     (let w := run Cfg.good (World.start fun _ => 0) (selfMatchActs ++ [.runTask])
      w.current = some 1 ∧ (w.chans 0).readPending.any (fun p => p.fiber == 1 && p.live w.fibers) = false) := by decide
 
+/-- what the self-matched select costs on the CURRENT source (every check, bump at resume): A `(ev/select c0 [c0 5] c1)`
+    gives 5 to itself (first task: `[:take c0 5]`), is still registered on c1, B `(ev/give c1 7)` matches that registration
+    before A runs: A is scheduled a second time, its first task is dropped by the stale-task filter and the 5 - pushed and
+    handed out - is received by nobody; A's select returns `[:take c1 7]`: two clauses took effect, one result.
+    So `noSelfMatch` cannot be dropped from `no_lost_wakeup` / `registration_kept` / `order_per_giver_taker` even with
+    the bump at resume; the bump only makes the leftover registration stale once the fiber has run. -/
+def selfMatchTwiceActs : List Action :=
+  [.timers, .runTask, .go 1, .go 2, .finish false, .runTask, .select [.take 0, .give 0 5, .take 1], .runTask, .give 1 7,
+   .finish false, .runTask, .runTask]
+
+theorem selfMatch_drops_value :
+    let w := run Cfg.good (World.start fun _ => 0) selfMatchTwiceActs
+    w.current = some 1 ∧ w.ghost.dropped.map (·.value) = [Val.take 0 5] ∧ w.ghost.received = [(1, 7)] ∧
+    w.ghost.handed = [(0, 5), (1, 7)] ∧ w.ghost.pushed = [(0, 5), (1, 7)] := by decide
+
 end JanetModel.Props.C06
